@@ -112,7 +112,18 @@ func (s shape) tpl(marker string) corev1.PodTemplateSpec {
 
 func genShape(r *rand.Rand) shape {
 	var s shape
-	switch r.Intn(5) {
+	switch r.Intn(7) {
+	case 5:
+		// the template itself excludes a node by name (in nodeName mode the created pods carry this term and
+		// their own spec.nodeName: the two name different nodes)
+		s.Affinity = &corev1.Affinity{NodeAffinity: &corev1.NodeAffinity{RequiredDuringSchedulingIgnoredDuringExecution: &corev1.NodeSelector{NodeSelectorTerms: []corev1.NodeSelectorTerm{
+			{MatchFields: []corev1.NodeSelectorRequirement{{Key: "metadata.name", Operator: corev1.NodeSelectorOpNotIn, Values: []string{"n0"}}}}}}}}
+	case 6:
+		// the template lists the nodes it wants by name, one term each
+		s.Affinity = &corev1.Affinity{NodeAffinity: &corev1.NodeAffinity{RequiredDuringSchedulingIgnoredDuringExecution: &corev1.NodeSelector{NodeSelectorTerms: []corev1.NodeSelectorTerm{
+			{MatchFields: []corev1.NodeSelectorRequirement{{Key: "metadata.name", Operator: corev1.NodeSelectorOpIn, Values: []string{"n1"}}}},
+			{MatchFields: []corev1.NodeSelectorRequirement{{Key: "metadata.name", Operator: corev1.NodeSelectorOpIn, Values: []string{"n2"}}}},
+			{MatchFields: []corev1.NodeSelectorRequirement{{Key: "metadata.name", Operator: corev1.NodeSelectorOpIn, Values: []string{"n3"}}}}}}}}
 	case 0:
 		s.Selector = map[string]string{"role": "agent"}
 	case 1:
@@ -556,6 +567,18 @@ func (e *Sim) actionFrom(w *World, r *rand.Rand, ns, name string, sh shape, edit
 					}
 				})
 			}
+		}},
+		{p.OldDS * 0.7, func() {
+			// the user calls the migration off: without the annotation the pods of the old DaemonSet are
+			// nobody's business any more
+			e0 := kit.GetEDS(w.S, ns, name)
+			if e0 == nil || e0.Annotations[v1.ExtendedDaemonSetOldDaemonsetAnnotationKey] == "" {
+				return
+			}
+			w.S.Mutate(simapi.KindEDS, ns, name, func(o client.Object) {
+				delete(o.(*v1.ExtendedDaemonSet).Annotations, v1.ExtendedDaemonSetOldDaemonsetAnnotationKey)
+			})
+			w.tracef("user: remove the old-daemonset annotation of %s/%s", ns, name)
 		}},
 		{p.Hostile, func() {
 			n := pickNode()
